@@ -11,3 +11,57 @@ _pinned = "p->closed" not in _p
 if not _fixed and not _pinned:
     missing.append("push.c closed-pipe guard: neither the pinned nor the repaired form")
 extra_text.append("Definition C06_PUSH_CLOSED_GUARD_FIXED : bool := %s.  (* push.c: push0_pipe_ready ignores a pipe whose pipe_close has run *)" % ("true" if _fixed else "false"))
+
+# ---- round 2 (seeded C06/5, C06/6; finding push-resize-overtakes-blocked) ----
+def _c06_fn(name_sig):
+    i = _p.find("\n" + name_sig)
+    if i < 0:
+        missing.append("push.c: %s not found" % name_sig)
+        return ""
+    b = _p[i:]
+    return b[:b.find("\n}\n")]
+
+# protocol numbers: NNI_PROTO(major, minor) = major * 16 + minor (src/core/protocol.h)
+_mm = _re.search(r"#define\s+NNI_PROTO\(major,\s*minor\)\s*\(\(\(major\)\s*\*\s*(\d+)\)\s*\+\s*\(minor\)\)", src("src/core/protocol.h"))
+if not _mm:
+    missing.append("NNI_PROTO macro in src/core/protocol.h")
+_mul6 = int(_mm.group(1)) if _mm else 0
+def _c06_proto(name):
+    m = _re.search(r"#define\s+%s\s+NNI_PROTO\((\d+),\s*(\d+)\)" % name, _p)
+    if not m:
+        missing.append("push.c: #define %s NNI_PROTO(a, b)" % name)
+        return 0
+    return int(m.group(1)) * _mul6 + int(m.group(2))
+N("C06_PUSH_SELF", _c06_proto("NNI_PROTO_PUSH_V0"), "pipeline0/push.c NNI_PROTO_PUSH_V0 via protocol.h NNI_PROTO")
+N("C06_PUSH_PEER", _c06_proto("NNI_PROTO_PULL_V0"), "pipeline0/push.c push0_pipe_start: nni_pipe_peer != NNI_PROTO_PULL_V0")
+
+# push0_pipe_start: the peer's protocol is checked (and a wrong peer refused) BEFORE the receive is armed and
+# push0_pipe_ready may hand the pipe a message
+_st = _c06_fn("push0_pipe_start(void *arg)")
+_chk = _re.search(r"if\s*\(nni_pipe_peer\(p->pipe\)\s*!=\s*NNI_PROTO_PULL_V0\)\s*\{.*?return\s*\(NNG_EPROTO\);\s*\}", _st, _re.S)
+_rdy1 = _st.find("push0_pipe_ready(p)")
+_rcv1 = _st.find("nni_pipe_recv(p->pipe")
+if not _chk or _rdy1 < 0 or _rcv1 < 0:
+    missing.append("push.c push0_pipe_start: peer check / nni_pipe_recv / push0_pipe_ready")
+_first = bool(_chk) and _rdy1 > _chk.end() and _rcv1 > _chk.end()
+extra_text.append("Definition C06_PUSH_START_CHECKS_PEER_FIRST : bool := %s.  (* push.c push0_pipe_start: a wrong peer is refused before nni_pipe_recv / push0_pipe_ready *)" % ("true" if _first else "false"))
+
+# push0_sock_send queues a blocked sender at the TAIL of s->aq and push0_pipe_ready serves nni_list_first(&s->aq)
+_sd = _c06_fn("push0_sock_send(void *arg, nni_aio *aio)")
+_fifo = bool(_re.search(r"nni_aio_start\(aio,\s*push0_cancel,\s*s\)\)\s*\{\s*nni_mtx_unlock\(&s->m\);\s*return;\s*\}\s*nni_aio_list_append\(&s->aq,\s*aio\);", _sd)) \
+    and len(_re.findall(r"\(a\s*=\s*nni_list_first\(&s->aq\)\)\s*!=\s*NULL", _rdy)) == 2 and "nni_list_last(&s->aq)" not in _p and "prepend(&s->aq" not in _p
+extra_text.append("Definition C06_PUSH_WAITERS_FIFO : bool := %s.  (* push.c: blocked senders are appended to s->aq and served from its head *)" % ("true" if _fifo else "false"))
+
+# push0_set_send_buf_len: pinned = nni_lmq_resize directly followed by the pollable logic; repaired = blocked senders
+# move into the resized buffer, in order, while there is room (finding push-resize-overtakes-blocked)
+_rz_fixed = _re.search(r"rv\s*=\s*nni_lmq_resize\(&s->wq,\s*\(size_t\)\s*val\);\s*(?://[^\n]*\n\s*)*while\s*\(!nni_lmq_full\(&s->wq\)\)\s*\{"
+                       r"[^}]*?nni_list_first\(&s->aq\)\)\s*==\s*NULL\)\s*\{\s*break;\s*\}\s*nni_aio_list_remove\(a\);[^}]*?nni_lmq_put\(&s->wq,\s*m\);"
+                       r"\s*nni_aio_set_msg\(a,\s*NULL\);\s*nni_aio_finish\(a,\s*0,\s*l\);\s*\}\s*(?://[^\n]*\n\s*)*if\s*\(!nni_lmq_full\(&s->wq\)\)\s*\{\s*nni_pollable_raise\(&s->writable\);", _p, _re.S)
+_rz_pinned = _re.search(r"rv\s*=\s*nni_lmq_resize\(&s->wq,\s*\(size_t\)\s*val\);\s*(?://[^\n]*\n\s*)*if\s*\(!nni_lmq_full\(&s->wq\)\)\s*\{\s*nni_pollable_raise\(&s->writable\);", _p)
+if not _rz_fixed and not _rz_pinned:
+    missing.append("push.c push0_set_send_buf_len after nni_lmq_resize: neither the pinned nor the repaired form")
+extra_text.append("Definition C06_PUSH_RESIZE_ADMITS_FIXED : bool := %s.  (* push.c push0_set_send_buf_len: blocked senders move into the resized buffer, in order *)" % ("true" if _rz_fixed else "false"))
+_mb = _re.search(r"nni_copyin_int\(&val,\s*buf,\s*sz,\s*(\d+),\s*(\d+),\s*t\)", _p)
+if not _mb:
+    missing.append("push.c push0_set_send_buf_len: nni_copyin_int range")
+N("C06_PUSH_BUF_MAX", int(_mb.group(2)) if _mb else 0, "pipeline0/push.c set_send_buf_len: nni_copyin_int(.., 0, hi, ..)")
